@@ -174,7 +174,15 @@ def gen_scenario(ctx, k):
     nodes = cfggen.assign_tree(rng, cfg, absent_prob=0.15)
     m = statemodel.Model(cfg, nodes)
     sc = Scn(seed=ctx.seed * 43 + k, watchdog=240000)
-    sc.add(*cfggen.bus_lines(cfg, nodes), 'bus brackets 1', f'start {d} 0', 'quiesce', 'snap s0')
+    sc.add(*cfggen.bus_lines(cfg, nodes), 'bus brackets 1')
+    if rng.random() < 0.4:
+        # feedback that arrives while bidib_start_pointer is still running (after the system was enabled: every board is registered, the state
+        # has been reset): it counts like any other message received since the reset
+        for _ in range(rng.randrange(1, 4)):
+            addr, t, data = gen_feedback(rng, m, cfg, nodes)
+            if t not in (C('MSG_NODE_LOST'), C('MSG_NODE_NEW')):
+                sc.add(f'bus inject {C("MSG_SYS_ENABLE"):02x} 1 {model.build_msg(addr, 0, t, data).hex()}')
+    sc.add(f'start {d} 0', 'quiesce', 'snap s0')
     hooks = {}
     ncorrupt = [0]
     nmsg = rng.randrange(5, 120)
@@ -208,6 +216,8 @@ def gen_scenario(ctx, k):
                         break
             else:
                 sc.add(up(*msgs), 'quiesce')
+                if rng.random() < 0.1:
+                    sc.add(up(*msgs), 'quiesce')          # the peer repeats a report: applying it twice is what the fold says too
         if rng.random() < 0.4:
             sc.add(f'snap s{i + 1}')
     sc.add('snap end', 'stop')
@@ -240,6 +250,7 @@ def evaluate(ctx, r, cfg, nodes, hooks, meta):
     fold.fold(m, r.events, begin, hooks, on_snap)
     ctx.evaluations += 1
     ctx.count('snapshots_compared', nsnap[0])
+    ctx.count('feedback_during_startup', sum(1 for e in r.events if e.get('e') == 'up' and e.get('injected')))
     ctx.count('bad_crc_packets_without_effect', r.scenario.count('\nraw '))
     ctx.count('multi_message_packets', sum(1 for e in r.events if e.get('e') == 'up' and len(fold.packets_of([e]).get(e['pkt'], [])) > 1))
     if bad:
